@@ -240,7 +240,7 @@ theorem orderTlvVars_ok (o : Order) (h : o.WF) (t : String) (k : RecKind) (x : T
       | some b =>
         simp only at hv
         injection hv with hv; injection hv with h1 h2; subst h1 h2
-        exact ⟨⟨(by dsimp only; decide), h.2.2.2⟩, by decide⟩
+        exact ⟨⟨(by dsimp only; decide), h.2.2.2.1⟩, by decide⟩
   · injection hv with hv; injection hv with h1 h2; subst h1 h2
     exact ⟨⟨(by dsimp only; decide), hct⟩, by decide⟩
   · split at hv
@@ -343,11 +343,15 @@ theorem applyKitTlv_rt (o : Order) (h : o.WF) (k0 : Kit) :
     cases hp : o.kit.isPublic <;>
     simp [ha, hn, hp, assembleKeys_flatten _ hal, assembleKeys_flatten _ hnal]
 
-theorem applyTypeTlv_rt (o : Order) :
-    applyTypeTlv (mapOf (recsOf Lser (orderTlvVars o))) o.baseProj =
-      match o with
-      | .ask k a c => .ask k.baseProj a c
-      | .bid k _ s tk u z => .bid k.baseProj 0 s tk u z := by
+theorem readTicket_canonical (b : Bytes) (h : ticketCanonical b = true) : readTicket b = .ok b [] := by
+  unfold ticketCanonical at h
+  exact eq_of_beq h
+
+theorem applyTypeTlv_rt' (o : Order) (h : o.WF) (k0 : Kit) :
+    applyTypeTlv (mapOf (recsOf Lser (orderTlvVars o))) (o.baseProj.setKit k0) =
+      .ok (match o with
+        | .ask _ a c => .ask k0 a c
+        | .bid _ _ s tk u z => .bid k0 0 s tk u z) [] := by
   have m6 : "askChannelAnnouncementConstraintsType" ∈ Lser.map (·.1) := by decide
   have m7 : "askChannelConfirmationConstraintsType" ∈ Lser.map (·.1) := by decide
   have m8 : "bidSelfChanBalanceType" ∈ Lser.map (·.1) := by decide
@@ -356,16 +360,32 @@ theorem applyTypeTlv_rt (o : Order) :
   have m11 : "bidZeroConfType" ∈ Lser.map (·.1) := by decide
   cases o with
   | ask k a c =>
-    simp only [Order.baseProj, applyTypeTlv]
+    simp only [Order.baseProj, Order.setKit, applyTypeTlv]
     rw [parsedNum_mapOf _ _ m6, parsedNum_mapOf _ _ m7, vars_ann_ask, vars_conf_ask]
     simp
   | bid k t s tk u z =>
-    simp only [Order.baseProj, applyTypeTlv]
+    simp only [Order.baseProj, Order.setKit, applyTypeTlv]
     rw [parsedNum_mapOf _ _ m8, parsedBytes_mapOf _ _ m9, parsedNum_mapOf _ _ m10, parsedNum_mapOf _ _ m11]
     rw [vars_scb_bid, vars_un_bid, vars_zc_bid]
     cases tk with
     | none => rw [vars_tk_bid_none]; by_cases hs : s = 0 <;> cases u <;> cases z <;> simp [hs, b2n]
-    | some b => rw [vars_tk_bid_some]; by_cases hs : s = 0 <;> cases u <;> cases z <;> simp [hs, b2n]
+    | some b =>
+      have hc : readTicket b = .ok b [] := readTicket_canonical b h.2.2.2.2
+      rw [vars_tk_bid_some]
+      by_cases hs : s = 0 <;> cases u <;> cases z <;> simp [hs, b2n, hc]
+
+theorem baseProj_setKit (o : Order) : o.baseProj.setKit o.kit.baseProj = o.baseProj := by
+  cases o <;> rfl
+
+theorem applyTypeTlv_rt (o : Order) (h : o.WF) :
+    applyTypeTlv (mapOf (recsOf Lser (orderTlvVars o))) o.baseProj =
+      .ok (match o with
+        | .ask k a c => .ask k.baseProj a c
+        | .bid k _ s tk u z => .bid k.baseProj 0 s tk u z) [] := by
+  have := applyTypeTlv_rt' o h o.kit.baseProj
+  rw [baseProj_setKit] at this
+  rw [this]
+  cases o <;> rfl
 
 theorem order_tlv_rt (o : Order) (h : o.WF) :
     deserializeOrderTlvData (serializeOrderTlvData o) o.baseProj = .ok o.tlvProj [] := by
@@ -374,7 +394,9 @@ theorem order_tlv_rt (o : Order) (h : o.WF) :
   unfold orderKnown at hd
   rw [hd]
   simp only []
-  rw [applyTypeTlv_rt o, applyKitTlv_rt o h]
+  rw [applyTypeTlv_rt o h]
+  simp only []
+  rw [applyKitTlv_rt o h]
   cases o with
   | ask k a c =>
     cases k with
